@@ -737,7 +737,25 @@ def prog_multi(seed: int, n_ops: int = 8, *, three: float = 0.3, prefs: float = 
         if g.cols[back]:
             op, nc = g.rand_op(g.cols[back], allow=("sel", "proj", "calc"))
             observed.append(g.apply(back, op, nc, g.opts(rng.choice(engines), rng.random() < 0.7, rng.random() < 0.5, False)))
-    elif sc < 0.42:
+    elif sc < 0.40:
+        # scenario: a downstream sort after a transfer, then a new sort sharing terms with it,
+        # preferred in the source engine (which is an order-preserving engine most of the time)
+        iters = [r for r in g.cols if g.kind[g.eng[r]] == "iter" and g.cols[r]]
+        src = rng.choice(iters) if iters and rng.random() < 0.8 else g.pick()
+        other = rng.choice([e for e in engines if e != g.eng[src]])
+        cur = g.transfer(src, other)
+        cs = sorted(g.cols[cur])
+        if cs:
+            t1 = [["term", ["ref", c], rng.choice(["asc", "desc"])] for c in rng.sample(cs, min(len(cs), rng.choice([1, 2])))]
+            s1 = g.apply(cur, ["sort", *t1], g.cols[cur])
+            extra = [["term", ["ref", c], "asc"] for c in cs if all(c != t[1][1] for t in t1)][:1]
+            t2 = rng.choice([t1[::-1], t1[-1:], extra + t1, extra + t1, t1 + extra, t1[:1]])
+            if t2:
+                plain = g.apply(s1, ["sort", *t2], g.cols[cur])
+                pr = g.apply(s1, ["sort", *t2], g.cols[cur],
+                             g.opts(g.eng[src], True, rng.random() < 0.3, rng.random() < 0.3))
+                observed += [plain, pr]
+    elif sc < 0.52:
         # scenario: operations downstream of a transfer, then a projection onto the columns of an
         # ancestor, preferred in the source engine
         src = g.pick()
@@ -749,7 +767,19 @@ def prog_multi(seed: int, n_ops: int = 8, *, three: float = 0.3, prefs: float = 
             cur = g.apply(cur, op, nc)
             anc.append(cur)
         target_cols = g.cols[rng.choice(anc[:-1])]
-        if target_cols <= g.cols[cur]:
+        if False:
+            # a downstream sort, then a new sort sharing terms with it, preferred in the source engine
+            cs = sorted(g.cols[cur])
+            t1 = [["term", ["ref", c], rng.choice(["asc", "desc"])] for c in rng.sample(cs, min(len(cs), rng.choice([1, 2])))]
+            s1 = g.apply(cur, ["sort", *t1], g.cols[cur])
+            extra = [["term", ["ref", c], "asc"] for c in cs if all(c != t[1][1] for t in t1)][:1]
+            t2 = rng.choice([t1[::-1], t1[-1:], extra + t1, t1 + extra, t1[:1]])
+            if t2:
+                plain = g.apply(s1, ["sort", *t2], g.cols[cur])
+                pr = g.apply(s1, ["sort", *t2], g.cols[cur],
+                             g.opts(g.eng[src], True, rng.random() < 0.3, rng.random() < 0.3))
+                observed += [plain, pr]
+        elif target_cols <= g.cols[cur]:
             plain = g.apply(cur, ["proj", *sorted(target_cols)], target_cols)
             pr = g.apply(cur, ["proj", *sorted(target_cols)], target_cols,
                          g.opts(g.eng[src], True, rng.random() < 0.3, rng.random() < 0.3))
